@@ -12,11 +12,11 @@ from common import REPO
 READY = True
 
 META = {
-    "technique": "Lean 4 proofs about executable models of the integer kernels and about the parser call graph regenerated from source (decide +kernel), tied by differential runs through the public API; plus a crash oracle (child processes, signals, panic hook) over builtins x boundary arguments, grammar-aware template mutants and nesting-depth probes",
+    "technique": "Lean 4 proofs about executable models (integer kernels, parser call graph regenerated from source, parser nesting accounting, a verified operand-stack certificate checker run on every real instruction stream = translation validation), tied by differential runs through the public API and a verif_hooks observation of the VM's operand stack; plus a crash oracle (child processes, signals, panic hook) over builtins x boundary arguments, format strings from a grammar, grammar-aware template mutants and nesting-depth probes",
     "category": "proof",
-    "text": "PARTIAL. Proved: (i) the models of functions::range, Loop::cycle, ops::mul string/tuple/list repetition, filters::indent/tojson indent, format width/precision, filters::batch/slice count arithmetic, lexer advance/syntax_error u16 columns + debug caret line, and ops::slice never reach a Rust panic for any input in the machine ranges, and every infallible allocation sized by a template-chosen number is bounded by a named constant regenerated from the sources; (ii) on the call graph regenerated from parser.rs every chain of Parser method calls that avoids with_recursion_guard! has fewer than 16 edges (so every cycle is guarded and native parser depth < (MAX_RECURSION+1)*16 frames), except the elif self-recursion of parse_if_cond (recorded finding). Searched, not proved: that nothing else panics, overflows the native stack or aborts in the allocator.",
+    "text": "PARTIAL. Proved: (i) kernels — the models of functions::range (incl. exactness of every item), Loop::cycle and the loop attributes, ops::mul string/tuple/list repetition, filters::indent/tojson indent, format width/precision and zero padding of grouped numbers, filters::batch/slice count arithmetic, lexer advance/syntax_error u16 columns + debug caret line, ops::slice never reach a Rust panic for any input in the machine ranges, every infallible allocation sized by a template-chosen number is bounded by a named constant regenerated from the sources, MergeSeq nesting stays within MAX_DEPTH; (ii) parser — on the call graph regenerated from parser.rs every chain of Parser method calls that avoids with_recursion_guard! has fewer than 16 edges (every cycle guarded, native parser depth < (MAX_RECURSION+1)*16 frames) except the elif self-recursion (recorded finding); the parser's expr_nesting accounting computes exactly the longest loop-built chain on any path, so whatever parses has AST depth <= 2*MAX_EXPR_NESTING + 3*MAX_RECURSION + 1 = 2451 (elif chains excluded); (iii) VM operand stack — checkStk_sound: if the verified checker accepts a certificate for an instruction stream then in EVERY reachable state of the abstract stack machine (all branches, iteration counts, loop(...) recursion depths, arbitrary pushed values) no instruction pops/peeks/indexes what is not there (Stack::pop/peek unwrap, get_call_args/drop_top/reverse_top lengths, dynamic argument counts incl. the filtered-loop idiom as a counted segment, args[0] of method calls, build_macro's list); the check runs the verified checker on every stream the real compiler produces for ~10^5 templates. Searched, not proved: that nothing else panics, overflows the native stack or aborts in the allocator.",
     "design_ref": "DESIGN.md §3 C01, §4",
-    "level_note": "What is PROVED (kernel-checked, axioms propext/Classical.choice/Quot.sound only): theorems MJ.C01.*_no_panic / *_alloc_le about the hand-transcribed kernels in MJ/Model/Kernels.lean (+ Slice.lean via C09), validated against the real code on their whole boundary boxes through templates/Expression::eval (value and panic/no-panic outcome compared with drive_c01); MJ.C01.parser_cycles_guarded by `decide +kernel` on the call graph that lib/tables/c01.py regenerates from parser.rs (regex translator: fn bodies, binop!/unaryop! expansion, self.method( call sites, with_recursion_guard!(…) spans) with the general soundness lemmas MJ.CallGraph.runBound_sound / chain_length_lt. What is ONLY SEARCHED (bounded, sampled; a finding is a witness, absence of findings is not a proof): native stack use (AST walkers as_const/compile_expr/Drop, Value Display/serialize/Drop on deeply nested run-time values, VM re-entry), allocator behaviour, the VM's operand/frame stack discipline, every builtin filter/test/function/loop/namespace/macro call on a boundary value zoo, template mutants, error formatting; only the harness' dev profile (opt-level 1, overflow checks + debug assertions) in the quick tier, release added in thorough; frame sizes of an opt-level-0 build are not observed. Assumed: the guard macro has the extracted shape (depth += 1; check; expr; depth -= 1 — checked textually), size_of::<Value>() = 24 (checked at run time), 64-bit target, allocation failure below the named limits does not occur (2 GiB cap in the workers). Hangs (timeouts) are reported in the histogram, not counted as crashes.",
+    "level_note": "What is PROVED (kernel-checked, axioms propext/Classical.choice/Quot.sound only): MJ.C01.*_no_panic / *_alloc_le / range_items_exact / mergeSeq_depth_bounded about the hand-transcribed kernels in MJ/Model/Kernels.lean (+ Slice.lean via C09), validated against the real code on their whole boundary boxes through templates/Expression::eval/formatting::format (value and panic/no-panic outcome compared with drive_c01); MJ.C01.parser_cycles_guarded by `decide +kernel` on the call graph that lib/tables/c01.py regenerates from parser.rs, with MJ.CallGraph.runBound_sound / chain_length_lt; MJ.C01.nesting_exact / nesting_error_exact / ast_depth_bound about MJ/Model/Nesting.lean (hand model of the guard counter and of the expr_nesting save/reset/bump/max protocol; the protocol's presence in every loop function is checked textually by the extractor, the accept/reject verdicts of the real parser are compared with the model on derivations around the limit, unparsed to source); MJ.C01.checkStk_sound (MJ/Model/Stk.lean, MJ/Proofs/Stk.lean): soundness of the operand-stack certificate checker for the abstract machine of one eval_impl activation incl. loop recursion (relative stacks, floors of recursive loops). NOT proved: the code generator — covered by translation validation (the verified checker accepts every real stream of the run: fixtures, builtin-call templates, compiling mutants, depth-probe templates), not by a theorem about codegen.rs; the effect table mapping Instruction -> abstract instruction is a hand transcription (harness stk_tok, exhaustive match) tied dynamically by the verif_hooks::opstack hook (every dispatched instruction of every render: observed height transition vs table). What is ONLY SEARCHED (bounded, sampled; a finding is a witness, absence of findings is not a proof): native stack use of the AST walkers, of Value Display/serialize/Drop on deeply nested run-time values and of VM re-entry (AST depth is bounded by theorem, frame sizes are not modelled), allocator behaviour, the frame/capture stacks (C05), every builtin filter/test/function/loop/namespace/macro call on a boundary value zoo, format-string grammar, template mutants, error formatting; only the harness' dev profile (opt-level 1, overflow checks + debug assertions) in the quick tier, release added in thorough. Assumed: the guard macro has the extracted shape (checked textually), size_of::<Value>() = 24 (checked at run time), 64-bit target, allocation failure below the named limits does not occur (2 GiB cap in the workers), a loop object is only called where the model allows recursion (any CallFunction with one argument / FastRecurse may enter any recursive loop of the stream). Hangs (timeouts) are reported in the histogram, not counted as crashes.",
 }
 
 NEEDED_TABLES = ["PARSER_CALL_GRAPH", "RECURSION_GUARD_SHAPE", "RANGE_LIMIT", "UNTRUSTED_SIZE_HINT_CAP", "MAX_EXPR_NESTING",
@@ -120,6 +120,12 @@ def run_profile(r, exe, profile, model_cache):
                 r.hist["builtin_family"][f[1].split(":")[0]] += 1
             if f[0] == "k":
                 r.hist["kernel"][f[1]] += 1
+            if res.startswith("tie-mismatch"):
+                # the operand-stack heights the real VM went through contradict the effect table
+                r.model_disagreement(f"{profile}/{mode} {case}", res, "transition allowed by stk_tok / MJ.Stk")
+                r.hist["opstack_dynamic_tie"]["mismatch"] += 1
+            elif mode == "main" and f[0] in ("t", "e") and cls in ("ok", "err"):
+                r.hist["opstack_dynamic_tie"]["renders whose every dispatched instruction matched the table"] += 1
             bad, site, what = classify(case, res)
             if what == "timeout":
                 r.hist["timeouts"][f"{f[0]} {f[1]}"] += 1
@@ -133,7 +139,7 @@ def run_profile(r, exe, profile, model_cache):
                 r.hist["model_compared"][f[1]] += 1
         # the two threads must agree on everything but crashes
         vals = set(modes.values())
-        if len(vals) > 1 and not any(v.startswith(("signal", "timeout", "exit:")) or ":batch-only:" in v for v in vals):
+        if len(vals) > 1 and not any(v.startswith(("signal", "timeout", "exit:", "tie-mismatch")) or ":batch-only:" in v for v in vals):
             r.hist["main_vs_2MiB_thread_differ"][f"{f[0]} {f[1]}"] += 1
         n_seen += 1
         if n_seen % 4099 == 1 and len(r.samples) < 11:
@@ -191,7 +197,7 @@ def run(r):
               "mutations; depth probes: 63 constructs x depths; each case on the main thread and on a 2 MiB thread in child processes "
               "under a 2 GiB cap; a case is non-trivial when the real code ran to a value or to an error other than TooManyArguments/Unknown* (distinct per profile/thread)")
     r.assumptions = [
-        "operand stack: the per-instruction effect table is the exhaustive match `stk_tok` of harness/src/bin/c01.rs (hand transcription of vm/mod.rs eval_impl); recursion into a loop may target any recursive loop of the stream; nested evaluations (macro calls, blocks, includes) run their own activation on their own stack",
+        "operand stack: the per-instruction effect table is the exhaustive match `stk_tok` of harness/src/bin/c01.rs (hand transcription of vm/mod.rs eval_impl), tied dynamically: the verif_hooks::opstack hook reports (activation, pc, stack height) for every dispatched instruction of every render of the oracle run and every transition is compared with the table; recursion into a loop may target any recursive loop of the stream; nested evaluations (macro calls, blocks, includes) run their own activation on their own stack",
         "with_recursion_guard! increments depth for the duration of the guarded call and refuses above MAX_RECURSION (shape checked textually by the extractor)",
         "size_of::<Value>() = 24 and 64-bit usize (checked at run time by `c01 info`)",
         "allocations below the named limits succeed (workers run under a 2 GiB address-space cap)",
